@@ -23,7 +23,7 @@ PROVED = [
     "utils.parseDataURL + the data: branch of DefaultUrlFetcher up to base64 (Css/Urls.v parse_data_url, fetch_data_url)",
     "css/parser.ParseNth (Css/PageSel.v parse_nth)",
     "html/tree.parsePageSelectors (Css/PageSel.v parse_page_selectors)",
-    "html/boxes.integerAttribute: colspan/rowspan/span (Css/HtmlAttr.v integer_attribute); <font size> (font_size_attr)",
+    "html/boxes.integerAttribute: colspan/rowspan/span (Css/HtmlAttr.v integer_attribute) and its call sites NewTableCellBox / TableColumnBox.span / TableColumnGroupBox.span with their lower bounds and clamps (cell_colspan, cell_rowspan, column_span, column_group_span); <font size> (font_size_attr)",
     "svg.parsePreserveAspectRatio, parseURL stripping, newPainter, parseValue, parseOpacity, parseFontWeight (Css/SvgAttr.v)",
     "css/parser.ParseColor control flow incl. parseCommaSeparated / rgb / rgba / hsl / hsla / hash colours (Css/ColorMq.v parse_color)",
     "html/tree.parseMediaQuery, pa.SplitOnComma, the @import prelude (Css/ColorMq.v parse_media_query, import_media)",
@@ -34,7 +34,7 @@ TESTED_ONLY = [
     "css/validation: @font-face descriptors (fontface), @counter-style descriptors + Validate (counterstyle)",
     "html/tree.NewCSSDefault on whole stylesheets: @page/@media/@import/@font-face/@counter-style/@namespace, nested rules (stylesheet)",
     "css/selector.ParseGroup (selector)", "svg.Parse on whole documents (svg)", "utils.DefaultUrlFetcher on data: URLs incl. base64 (dataurl-fetch)",
-    "tree.NewHTML + GetAllComputedStyles with presentational hints + boxes.BuildFormattingStructure + GetMetadata on documents with malformed attributes (html)",
+    "tree.NewHTML + GetAllComputedStyles with presentational hints + boxes.BuildFormattingStructure + GetMetadata + layout.Layout (the numbers read from the attributes are used by the table grid / layout) on documents with malformed attributes (html)",
     "tree.NewHTML + GetMetadata (utils.GetHtmlMetadata): <title>, <meta name content> (keywords, author, W3C dates with digit runs of every length in every numeric field), <link rel=attachment> (metadata)",
     "css/parser.ParseColorString (color), css/parser Tokenize/ParseStylesheet/ParseDeclarationList/Serialize on mutated text (cssparse)",
 ]
@@ -58,10 +58,12 @@ SPEC = {
         "base64 decoding, net/url parsing, float parsing",
     ],
     "codes": {"1": "crash/no-crash disagreement between implementation and model", "3": "implementation and model return different values",
-              "4": "tested-only component panicked / died / hung on this input", "5": "implementation and model both panic (a modelled genuine defect)"},
+              "4": "tested-only component panicked / died / hung on this input", "5": "implementation and model both panic (a modelled genuine defect)",
+              "6": "a table span built from the attribute (td colspan / rowspan, col / colgroup span) is outside the range proved in C07_table_spans_range (colspan, span in [1, 1000]; rowspan in [0, 65534]) that the table grid and layout index with: the crash is downstream (tableAndColumnsPreferredWidths)"},
     "theorems_for_kind": {
         "unquote": "C07_unquote_total", "unescape": "C07_unescape_total", "dataurl": "C07_parse_data_url_total", "fetchdata": "C07_fetch_data_url_total",
         "pagesel": "C07_parse_page_selectors_total", "nth": "C07_parse_nth_total", "intattr": "C07_integer_attribute_total / C07_integer_attribute_spec",
+        "spans": "C07_table_spans_range / C07_cell_colspan_spec / C07_cell_rowspan_spec / C07_column_span_spec",
         "par": "C07_parse_preserve_aspect_ratio_total", "svgvalue": "C07_parse_value_total", "svgopacity": "C07_parse_opacity_total",
         "svgurl": "C07_parse_url_strip_total", "painter": "C07_new_painter_total", "fontweight": "C07_parse_font_weight_total",
         "colortok": "C07_parse_color_total", "media": "C07_parse_media_query_total",
